@@ -98,6 +98,7 @@ type Exec struct {
 	scripts map[string]M
 	nextID  int
 	served  chan error
+	Sched   *Sched // set when goroutines are under schedule control (C16 / C15)
 	Global  wire.Parameters
 	ctxMu   sync.Mutex
 	lastCtx map[int]context.Context // per connection: context of the command whose callback ran last
@@ -468,6 +469,10 @@ func (x *Exec) runStmt(ctx context.Context, w wire.DataWriter, params []wire.Par
 			x.cb(ctx, rec)
 			if err != nil && err != io.EOF && S(op, "onerr") == "ret" {
 				return err // the documented use: propagate a failed read
+			}
+		case "gate":
+			if x.Sched != nil {
+				x.Sched.Gate(ctx, S(op, "p"))
 			}
 		case "ret":
 			if S(op, "r") == "nil" {
